@@ -4,19 +4,22 @@
 (* back to the same representation; and ParseSpec is total on short        *)
 (* strings over the grammar's alphabet.                                    *)
 EXTENDS Text
+CONSTANT MaxLen
 VARIABLES d, s
 Vals == {[f |-> f, n |-> n, c |-> <<>>, e |-> 0] : f \in {INF, SNAN, QNAN}, n \in BOOLEAN}
    \cup {[f |-> FIN, n |-> n, c |-> FromInt(c), e |-> e] : n \in BOOLEAN,
             c \in {0, 1, 9, 10, 12, 123, 1000, 9999, 1234567}, e \in {-2001, -2000, -12, -8, -7, -6, -5, -1, 0, 1, 2, 10}}
-Alpha == {48, 57, 43, 45, 46, 101, 69, 105, 110, 102, 97, 115, 32}
+Alpha == {48, 57, 43, 45, 46, 101, 69, 105, 110, 102, 97, 115, 32, 78, 116, 121}
 D0 == [f |-> FIN, n |-> FALSE, c |-> <<>>, e |-> 0]
 Init == d \in Vals /\ s = <<>>
-Next == d = D0 /\ Len(s) < 4 /\ \E ch \in Alpha : s' = Append(s, ch) /\ UNCHANGED d
+Next == d = D0 /\ Len(s) < MaxLen /\ \E ch \in Alpha : s' = Append(s, ch) /\ UNCHANGED d
 RoundTrip == s = <<>> => \A v \in {71, 103, 69, 101} :
                LET p == ParseSpec(TextOf(d, v)) IN p.ok /\ LimitClass(p) = "inside" /\ AbsEq(p, d)
 PlainRoundTrip == s = <<>> => LET p == ParseSpec(TextOf(d, 102)) IN
                   p.ok /\ p.f = d.f /\ p.n = d.n /\ (d.f = FIN => NumEq(p.c, p.e, d.c, d.e))
 Total == ParseSpec(s).ok \in BOOLEAN
+\* the functional grammar and the automaton accept the same strings
+SameLanguage == ParseSpec(s).ok = AutomatonAccepts(s)
 SciShape == (s = <<>> /\ d.f = FIN /\ ~(IsZero(d.c) /\ d.e \in -2000..-1)) =>
               LET t == ToSci(d)
                   plain == \A i \in 1..Len(t) : t[i] # 69
